@@ -881,6 +881,7 @@ class unreach (packet_base, unpack_new_adapter):
   MIN_LEN = 4
 
   def __init__ (self, raw=None, prev=None, **kw):
+    packet_base.__init__(self)
 
     self.prev = prev
 
@@ -892,9 +893,10 @@ class unreach (packet_base, unpack_new_adapter):
     self._init(kw)
 
   def __str__ (self):
-    s = ''.join(('[', 'm:', str(self.next_mtu), ']'))
-
-    return _str_rest(s, self)
+    s = '[ICMP6 unreach]'
+    if isinstance(self.next, packet_base):
+      s += str(self.next)
+    return s
 
   def parse (self, raw):
     assert isinstance(raw, bytes)
